@@ -73,7 +73,13 @@ func verifC03Block(w *verifC03Image, kind int) []byte {
 				body = append(body, id<<4|uint8(len(val)-1))
 			} else {
 				verifAssume(id >= 1)
-				val = verifBytes("val", verifPick("vlen", verifC03Lens(2)))
+				if n := verifPick("vlen", verifC03Lens(2)); n > 64 {
+					// bulk value: a fixed non-zero filler with symbolic ends, so that a
+					// decoder that mis-frames it does not fan out over its bytes
+					val = verifFiller("val", n)
+				} else {
+					val = verifBytes("val", n)
+				}
 				body = append(body, id, uint8(len(val)))
 			}
 			body = append(body, val...)
@@ -172,6 +178,14 @@ func verifC03Render() *verifC03Image {
 func VerifC03Decode() {
 	w := verifC03Render()
 	var p Packet
+	if verifCase("used", 0, 1) == 1 {
+		// the receiver has decoded a fully populated packet before (3 CSRCs, two one-byte
+		// elements, payload, padding): nothing of it may show in the next decode
+		prev := []byte{0xB3, 0xE5, 0x12, 0x34, 1, 2, 3, 4, 5, 6, 7, 8, 0xA1, 0xA2, 0xA3, 0xA4, 0xB1, 0xB2, 0xB3, 0xB4, 0xC1, 0xC2, 0xC3, 0xC4,
+			0xBE, 0xDE, 0, 2, 0x51, 0xD1, 0xD2, 0x70, 0xD3, 0, 0, 0, 0xE1, 0xE2, 0, 2}
+		verifAssert("C03.used-setup", p.Unmarshal(prev) == nil && len(p.CSRC) == 3 && len(p.Extensions) == 2 && p.PaddingSize == 2)
+		verifCover("C03.decode.used-receiver")
+	}
 	err := p.Unmarshal(w.img)
 	verifAssert("C03.accept", err == nil)
 	verifAssert("C03.version", p.Version == w.version)
@@ -243,9 +257,9 @@ func verifC03Lens(kind int) []int {
 	case kind == 1:
 		return []int{1, 16}
 	case full:
-		return []int{0, 1, 2, 5}
+		return []int{0, 1, 2, 5, 255}
 	}
-	return []int{0, 5}
+	return []int{0, 5, 255}
 }
 
 // duplicate ids are legal on the wire; GetExtension then returns the first
